@@ -410,7 +410,7 @@ func init() {
 		Rule: "cases: the settings are the exported leaf fields of agent.Config found by reflection (MDNS.* included), each with the domain {unset, v1, v2} (switches {off, on}; tags {nil, {}, {a:1}, {a:2,b:1}}; lists {nil, [], [x], [y,z]} with spare capacity). " +
 			"pairs: all 16 uniform level pairs; every field x every (earlier, later) value pair x 9 backgrounds for the other fields; every pair of fields x every value combination (others unset). " +
 			"triples (associativity, both groupings run on fresh copies): 64 uniform level triples; every field x every value triple x 3 (thorough 27) backgrounds; thorough: every pair of fields x every value combination. " +
-			"files: the same configurations written as JSON: every sequence of 1-3 uniform-level files, every field x value pair in 2 files (thorough: x value triple in 3 files), each read as a path list, as one directory (with decoy non-.json file and sub-directory) and as file + directory. " +
+			"files: the same configurations written as JSON: every sequence of 1-3 uniform-level files, every field x value pair in 2 files (thorough: x value triple in 3 files), each read as a path list, as a path list interleaved with directories that contain no .json file, as one directory (with decoy non-.json file and sub-directory) and as file + directory. " +
 			"Every MergeConfig call is checked by itself (value of every setting against the layering rule, both arguments unchanged incl. backing arrays). non-trivial = some later source sets at least one setting",
 		Assumptions: []string{
 			"a setting is 'set' when it differs from the zero value of its type (nil and empty maps/lists are equivalent); negative numbers are outside the domain (the command line uses -1 for 'protocol not given')",
@@ -715,7 +715,7 @@ func c31files(e *c31env, idx *int) {
 	caseNo := 0
 	names := []string{"a.json", "b.json", "c.json"}
 	run := func(what string, lev []func(l *c31leaf) int) {
-		forms := []string{"paths"}
+		forms := []string{"paths", "paths+nojson-dirs"}
 		if len(lev) >= 1 {
 			forms = append(forms, "dir")
 		}
@@ -740,7 +740,7 @@ func c31files(e *c31env, idx *int) {
 			// written in reverse so that creation order differs from lexical order
 			for i := len(lev) - 1; i >= 0; i-- {
 				d := sub
-				if form == "paths" || (form == "file+dir" && i == 0) {
+				if form == "paths" || form == "paths+nojson-dirs" || (form == "file+dir" && i == 0) {
 					d = dir
 				}
 				p := filepath.Join(d, names[i])
@@ -754,6 +754,20 @@ func c31files(e *c31env, idx *int) {
 				case form == "paths":
 					paths = append(paths, filepath.Join(dir, names[i]))
 					order = append(order, filepath.Join(dir, names[i]))
+				case form == "paths+nojson-dirs":
+					// directories that contain no .json file are sources that set nothing
+					if i == 0 {
+						ed := filepath.Join(dir, "empty0.d")
+						os.MkdirAll(ed, 0o755)
+						paths = append(paths, ed)
+					}
+					paths = append(paths, filepath.Join(dir, names[i]))
+					order = append(order, filepath.Join(dir, names[i]))
+					nd := filepath.Join(dir, fmt.Sprintf("nojson%d.d", i))
+					os.MkdirAll(filepath.Join(nd, "sub.json"), 0o755)
+					os.WriteFile(filepath.Join(nd, "x.txt"), []byte(`{"node_name":"decoy"}`), 0o644)
+					os.WriteFile(filepath.Join(nd, "sub.json", "z.json"), []byte(`{"node_name":"decoy"}`), 0o644)
+					paths = append(paths, nd)
 				case form == "file+dir" && i == 0:
 					paths = append(paths, filepath.Join(dir, names[i]), sub)
 					order = append(order, filepath.Join(dir, names[i]))
@@ -764,7 +778,7 @@ func c31files(e *c31env, idx *int) {
 					order = append(order, filepath.Join(sub, names[i]))
 				}
 			}
-			if form != "paths" {
+			if form != "paths" && form != "paths+nojson-dirs" {
 				// things a directory source must not read
 				os.WriteFile(filepath.Join(sub, "a.json.bak"), []byte("{ not json"), 0o644)
 				os.WriteFile(filepath.Join(sub, "b.txt"), []byte(`{"node_name":"decoy"}`), 0o644)
